@@ -318,7 +318,9 @@ func (m c10mux) Exec(w *e.World, st *e.Step) *e.Violation {
 		}
 		return iw.pkts[id]
 	}
-	diff := func(post ibcSnap, f, c, u int) *big.Int { return new(big.Int).Sub(post.hold[f][c][u], pre.hold[f][c][u]) }
+	diff := func(post ibcSnap, f, c, u int) *big.Int {
+		return new(big.Int).Sub(post.hold[f][c][u], pre.hold[f][c][u])
+	}
 	unchanged := func(post ibcSnap, what string) *e.Violation {
 		for fi := range iw.fams {
 			for c := 0; c < 2; c++ {
